@@ -85,9 +85,17 @@ def handle (d : DSt) (j : Json) : R (DSt × Json) := do
       let big := 1000000000
       pure (Op.isRunning ((refAt d.mouts t).getD big), Op.isRunning ((srefAt d.souts t).getD big))
     else .error s!"unknown op {op}")
+  -- does this `next` start an iteration while `_pids_reused` is non-empty? (region of lead L19)
+  let flaggedStart : Bool :=
+    match mo with
+    | .next g _ =>
+      match d.m.gens[g]? with
+      | some gen => decide (gen.st = .fresh) && !d.m.flagged.isEmpty
+      | none => false
+    | _ => false
   let (m', mout) := step cfg d.m mo
   let (s', sout) := Spec.sstep cfg.validNames cfg.noAccessAttrs d.s so
   return (⟨m', s', d.mouts ++ [mout], d.souts ++ [sout]⟩,
-          jObj [("model", jOut mout), ("spec", jOpt jOut sout)])
+          jObj [("model", jOut mout), ("spec", jOpt jOut sout), ("flagged_start", Json.bool flaggedStart)])
 
 def main : IO Unit := Proto.run DSt.init (total handle)
